@@ -62,7 +62,13 @@ func c09Specs() []c09Spec {
 		{ID: "S7-file-samebucket-add-add-purge", Store: file, Init: []c09Op{add(m1)},
 			Threads: [][]c09Op{{add(m1)}, {add(m2)}, {{Kind: "purge", MB: m1}}}, Bound: [2]int{2, 3}},
 		{ID: "S8-file-cap1-add-add", Store: sys.StoreSpec{Backend: "file", Cap: 1}, Init: []c09Op{add(m1)},
-			Threads: [][]c09Op{{add(m1)}, {add(m1)}, {{Kind: "list", MB: m1}}}, Bound: [2]int{2, 3}, NoLin: true},
+			Threads: [][]c09Op{{add(m1)}, {add(m1)}, {{Kind: "list", MB: m1}}}, Bound: [2]int{2, 3}},
+		{ID: "S17-mem-cap2-add-add-remove", Store: sys.StoreSpec{Backend: "mem", Cap: 2}, Init: []c09Op{add(m1), add(m1)},
+			Threads: [][]c09Op{{add(m1)}, {add(m1)}, {{Kind: "remove", MB: m1, Ref: "init2"}, {Kind: "list", MB: m1}}}, Bound: [2]int{2, 3}},
+		{ID: "S18-file-seen-remove-list", Store: file, Init: []c09Op{add(m1), add(m1)},
+			Threads: [][]c09Op{{{Kind: "seen", MB: m1, Ref: "init1"}}, {{Kind: "remove", MB: m1, Ref: "init2"}}, {{Kind: "list", MB: m1}, {Kind: "get", MB: m1, Ref: "init1"}}}, Bound: [2]int{2, 3}},
+		{ID: "S19-file-purge-add-add", Store: file, Init: []c09Op{add(m1)},
+			Threads: [][]c09Op{{{Kind: "purge", MB: m1}}, {add(m1)}, {add(m1), {Kind: "list", MB: m1}}}, Bound: [2]int{1, 2}},
 		{ID: "S9-file-visit-vs-remove-last", Store: file, Init: []c09Op{add(m1), add(m2)},
 			Threads: [][]c09Op{{{Kind: "visitremove", MB: "none"}}, {{Kind: "remove", MB: m1, Ref: "init1"}}, {{Kind: "remove", MB: m2, Ref: "init2"}}}, Bound: [2]int{2, 3}},
 		{ID: "S12-file-add-add-list-same-mailbox", Store: file, Init: []c09Op{add(m1)},
